@@ -340,9 +340,9 @@ pub(crate) mod kani_verif {
     }
     // @h name=c03_from_l1 props=C03,C07,C01,C05,C13,C10 tier=quick kind=proved cfg=L2w8 timeout=2400 funcs=HssPrivateKey::from contract="expanded key of counter c: level i tree = derive(level i-1 (seed,I), digit i-1), current leaf = digit i; child public key i signed by level i-1 leaf digit i-1 over its serialisation; used-leaf vector = digits (+1 above bottom); aux dropped after the top tree's signature; every counter; callees by contract (incl. CompressedUsedLeafsIndexes::to, proved in c13_to_*); L=1, height 10"
     from_harness!(c03_from_l1, 1, Some([6u8]));
-    // @h name=c03_from_l2 props=C03,C07,C01,C05,C13,C10 tier=thorough kind=proved cfg=L2w8 timeout=2400 funcs=HssPrivateKey::from contract="same, L=2, heights (10,5): every counter 0..2^15-1"
+    // @h name=c03_from_l2 props=C03,C07,C01,C05,C13,C10 tier=extended kind=proved cfg=L2w8 timeout=2400 funcs=HssPrivateKey::from contract="same, L=2, heights (10,5): every counter 0..2^15-1"
     from_harness!(c03_from_l2, 2, Some([6u8, 5u8]));
-    // @h name=c03_from_l2_mixed props=C03,C07,C01,C05,C13,C10 tier=thorough kind=proved cfg=L2w8 timeout=2400 funcs=HssPrivateKey::from contract="same, L=2, heights (2,25)"
+    // @h name=c03_from_l2_mixed props=C03,C07,C01,C05,C13,C10 tier=extended kind=proved cfg=L2w8 timeout=2400 funcs=HssPrivateKey::from contract="same, L=2, heights (2,25)"
     from_harness!(c03_from_l2_mixed, 2, Some([1u8, 9u8]));
     // @h name=c03_from_l2_sym props=C03,C07,C01,C05,C13,C10 tier=extended kind=proved cfg=L2w8 timeout=7200 funcs=HssPrivateKey::from contract="same, L=2, all height pairs (symbolic)"
     from_harness!(c03_from_l2_sym, 2, None);
